@@ -53,7 +53,7 @@ func genPES(t *rapid.T, maxData int) ref.PES {
 		p.CRC = rapid.Bool().Draw(t, "crc")
 		p.Ext = rapid.Bool().Draw(t, "ext")
 	}
-	p.OptFill = rapid.SampledFrom([]byte{0x00, 0xFF, 0x21, 0x80}).Draw(t, "optfill")
+	p.OptFill = 0xFF // the flag-driven optional fields carry marker bits: all ones keeps every one of them set
 	needed := p.HeaderDataLength()
 	switch rapid.IntRange(0, 4).Draw(t, "stuff-kind") {
 	case 0, 1:
@@ -206,8 +206,9 @@ func c11Transport(c CaseC11) *hx.Failure {
 	hb, err := packet.PESHeader(&pk)
 	what := fmt.Sprintf("PUSI %v, payload %d bytes starting %x", c.PUSI, c.PaySize, head(payload, 4))
 	if wantHdr {
-		if err != nil || !bytes.Equal(hb, payload) {
-			return hx.Failf("tspes-missing", "packet.PESHeader returned (%d bytes, %v), want the %d payload bytes (%s)", len(hb), err, len(payload), what)
+		// "yields PES header bytes": bytes of this payload, starting at its start (how many of them is not stated)
+		if err != nil || len(hb) < 4 || len(hb) > len(payload) || !bytes.Equal(hb, payload[:len(hb)]) {
+			return hx.Failf("tspes-missing", "packet.PESHeader returned (%d bytes, %v), want the PES header bytes at the start of the %d payload bytes (%s)", len(hb), err, len(payload), what)
 		}
 	} else if err == nil {
 		return hx.Failf("tspes-spurious", "packet.PESHeader returned %d bytes without error (%s)", len(hb), what)
